@@ -101,7 +101,7 @@ class Configuration:
             random.seed(not_deterministic_seed)
 
     def initialisation(self, product: Product) -> None:
-        self.control_variates.initialisation(type(product.payoff_underlying))
+        self.control_variates.initialisation(product.payoff_underlying)
 
 
 class ConfigurationStandard(Configuration):
